@@ -463,7 +463,7 @@ void rcu_list<T, M, Alloc>::emplace_back"""}]},
         "new": "                    // reengage the lock so the size is correct\n                    if (!lock.try_lock_for(wait)) {\n                        return elementSize;\n                    }\n                    ecall.clear();"}]},
     {"name": "dd-no-final-sweep", "props": ["C16"], "edits": [{"file": "gmlc/concurrency/DelayedDestructor.hpp",
         "old": "            while (!ElementsToBeDestroyed.empty()) {\n                ++ii;\n                destroyObjects();\n                if (!ElementsToBeDestroyed.empty()) {\n#ifdef ENABLE_TRIPWIRE\n                    // short circuit if the tripline was triggered\n                    if (tripDetect.isTripped()) {\n                        return;\n                    }\n#endif\n                    if (ii > 4) {\n                        destroyObjects();\n                        break;\n                    }\n                    if (ii % 2 == 0) {\n                        std::this_thread::sleep_for(\n                            std::chrono::milliseconds(100));\n                    } else {\n                        std::this_thread::yield();\n                    }\n                }\n            }\n        }\n        catch (...) {\n        }\n    }\n    DelayedDestructor(DelayedDestructor&&) noexcept = delete;",
-        "new": "            for (auto& e : ElementsToBeDestroyed) {\n                (void)e.release();\n            }\n        }\n        catch (...) {\n        }\n    }\n    DelayedDestructor(DelayedDestructor&&) noexcept = delete;"}]},
+        "new": "            (void)new std::vector<std::shared_ptr<X>>(std::move(ElementsToBeDestroyed));\n        }\n        catch (...) {\n        }\n    }\n    DelayedDestructor(DelayedDestructor&&) noexcept = delete;"}]},
     {"name": "dd-single-callback-twice", "props": ["C16"], "edits": [{"file": "gmlc/concurrency/DelayedDestructor.hpp",
         "old": "                    // this needs to be done after the lock, so a destructor\n                    // can never called while under the lock\n                    if (deleteFunc) {\n                        for (auto& element : ecall) {\n                            deleteFunc(element);\n                        }\n                    }\n                    ecall.clear();  // make sure the destructors get called\n                    // before returning.",
         "new": "                    if (deleteFunc) {\n                        for (auto& element : ecall) {\n                            deleteFunc(element);\n                        }\n                        if (ecall.size() > 2) {\n                            deleteFunc(ecall.front());\n                        }\n                    }\n                    ecall.clear();"}]},
@@ -502,4 +502,33 @@ void rcu_list<T, M, Alloc>::emplace_back"""}]},
     {"name": "do-iscompleted-wrong-map", "props": ["C18"], "edits": [{"file": "gmlc/concurrency/DelayedObjects.hpp",
         "old": "        auto fnd = usedPromiseByString.find(name);\n        return (fnd != usedPromiseByString.end());",
         "new": "        auto fnd = promiseByString.find(name);\n        return (fnd == promiseByString.end());"}]},
+
+    # ---------------------------------------------------------------- C20 (throwing user code)
+    {"name": "lr-no-rollback", "props": ["C20"], "edits": [{"file": "gmlc/libguarded/lr_guarded.hpp",
+        "old": "    catch (...) {\n        *firstWriteLocation = *secondWriteLocation;\n        throw;\n    }", "new": "    catch (...) {\n        throw;\n    }"}]},
+    {"name": "lr-no-rollforward", "props": ["C20"], "edits": [{"file": "gmlc/libguarded/lr_guarded.hpp",
+        "old": "    catch (...) {\n        *secondWriteLocation = *firstWriteLocation;\n        throw;\n    }", "new": "    catch (...) {\n        throw;\n    }"}]},
+    {"name": "lr-rollback-wrong-direction", "props": ["C20"], "edits": [{"file": "gmlc/libguarded/lr_guarded.hpp",
+        "old": "    catch (...) {\n        *secondWriteLocation = *firstWriteLocation;\n        throw;\n    }", "new": "    catch (...) {\n        *firstWriteLocation = *secondWriteLocation;\n        throw;\n    }"}]},
+    {"name": "ordered-modify-manual-lock", "props": ["C20"], "edits": [{"file": "gmlc/libguarded/ordered_guarded.hpp",
+        "old": "    ordered_guarded<T, M>::modify(Func&& func)\n{\n    std::lock_guard<M> lock(m_mutex);\n    func(m_obj);\n}",
+        "new": "    ordered_guarded<T, M>::modify(Func&& func)\n{\n    m_mutex.lock();\n    func(m_obj);\n    m_mutex.unlock();\n}"}]},
+    {"name": "guarded-store-manual-lock", "props": ["C20"], "edits": [{"file": "gmlc/libguarded/guarded.hpp",
+        "old": "    void store(objType&& newObj)\n    {  // uses a forwarding reference\n        std::lock_guard<M> glock(m_mutex);\n        m_obj = std::forward<objType>(newObj);\n    }",
+        "new": "    void store(objType&& newObj)\n    {  // uses a forwarding reference\n        m_mutex.lock();\n        m_obj = std::forward<objType>(newObj);\n        m_mutex.unlock();\n    }"}]},
+    {"name": "atomic-cas-manual-lock", "props": ["C20"], "edits": [{"file": "gmlc/libguarded/atomic_guarded.hpp",
+        "old": "        std::lock_guard<M> glock(m_mutex);\n        if (m_obj == expected) {\n            m_obj = std::forward<objType>(desired);\n            return true;\n        }\n        expected = m_obj;\n        return false;",
+        "new": "        m_mutex.lock();\n        if (m_obj == expected) {\n            m_obj = std::forward<objType>(desired);\n            m_mutex.unlock();\n            return true;\n        }\n        expected = m_obj;\n        m_mutex.unlock();\n        return false;"}]},
+    {"name": "dd-no-catch", "props": ["C20"], "edits": [{"file": "gmlc/concurrency/DelayedDestructor.hpp",
+        "old": "                    if (deleteFunc) {\n                        for (auto& element : ecall) {\n                            deleteFunc(element);\n                        }\n                    }\n                    ecall.clear();  // make sure the destructors get called\n                                    // before returning.",
+        "new": "                    if (deleteFunc) {\n                        for (auto& element : ecall) {\n                            try {\n                                deleteFunc(element);\n                            }\n                            catch (...) {\n                                lock.lock();\n                                throw;\n                            }\n                        }\n                    }\n                    ecall.clear();  // make sure the destructors get called\n                                    // before returning."}]},
+    {"name": "soh-removep-manual-lock", "props": ["C20"], "edits": [{"file": "gmlc/concurrency/SearchableObjectHolder.hpp",
+        "old": "    bool removeObject(std::function<bool(const std::shared_ptr<X>&)> operand)\n    {\n        std::lock_guard<std::mutex> lock(mapLock);",
+        "new": "    bool removeObject(std::function<bool(const std::shared_ptr<X>&)> operand)\n    {\n        mapLock.lock();\n        struct Unlock { std::mutex& m; bool armed{true}; ~Unlock() { if (armed && !std::uncaught_exceptions()) m.unlock(); } } lock{mapLock};"}]},
+    {"name": "def-async-propagates", "props": ["C20"], "edits": [{"file": "gmlc/libguarded/deferred_guarded.hpp",
+        "old": "    std::promise<Ret> promise;\n\n    try {\n        promise.set_value(func(data));\n    }\n    catch (...) {\n        promise.set_exception(std::current_exception());\n    }\n\n    return promise.get_future();",
+        "new": "    std::promise<Ret> promise;\n\n    promise.set_value(func(data));\n\n    return promise.get_future();"}]},
+    {"name": "cow-lock-manual-mutex", "props": ["C20"], "edits": [{"file": "gmlc/libguarded/cow_guarded.hpp",
+        "old": "    std::unique_lock<M> guard(m_writeMutex);\n\n    auto data(m_data.lock_shared());\n    std::unique_ptr<T> val(new T(**data));\n    data.reset();\n\n    return handle(val.release(), deleter(std::move(guard), *this));\n}\n\ntemplate<typename T, typename M>\nauto cow_guarded<T, M>::try_lock()",
+        "new": "    m_writeMutex.lock();\n\n    auto data(m_data.lock_shared());\n    std::unique_ptr<T> val(new T(**data));\n    data.reset();\n    std::unique_lock<M> guard(m_writeMutex, std::adopt_lock);\n\n    return handle(val.release(), deleter(std::move(guard), *this));\n}\n\ntemplate<typename T, typename M>\nauto cow_guarded<T, M>::try_lock()"}]},
 ]
